@@ -1,6 +1,9 @@
 """C01 — PVM execution matches the Gray Paper machine (spec/pvm/PVM.tla).
-G/T: decode partition enumerated by TLC (PVM_Gen) + seeded random programs (checks/pvmgen.py).
-X: harness/pvm (block engine through Host.HostCall with stub host functions).  V: PVM_Trace, Mode c01."""
+MC: MC_PVM (one Step of the specified machine over the decode partition, design invariants).
+G:  PVM_Gen writes the decode partition (TLC-enumerated); seeded start states are attached here;
+T:  seeded random programs (checks/pvmgen.py) with clean and edgy encodings, host-call segments.
+X:  harness/pvm (block engine through Host.HostCall with stub host functions, step engine in lock-step).
+V:  PVM_Trace, Mode c01: every segment's exit, resume point, gas, registers, memory, access map, heap."""
 import json, os, sys
 sys.path.insert(0, os.path.dirname(os.path.abspath(__file__)))
 import vf
@@ -10,32 +13,113 @@ FILES = {
     "internal/verifdrv/vfd/vfd.go": "vfd/vfd.go",
     "PVM/zz_verif_pvm_test.go": "pvm/zz_verif_pvm_test.go",
 }
+ALWAYS = [10, 30, 73, 80, 180]          # formats with two length fields / host call: always in the quick pick
 
 
-def make_cases(ctx, n_random):
+def pick_ops(ctx, n):
+    rng = vf.Rng(ctx.seed * 7919 + 13)
+    ops = set(ALWAYS)
+    while len(ops) < n:
+        ops.add(rng.pick(pvmgen.VALID))
+    ops.add(rng.pick([2, 9, 11, 19, 21, 34, 63, 74, 91, 112, 162, 176, 181, 189, 231, 255]))
+    return sorted(ops)
+
+
+def tla_int_set(xs):
+    return "{" + ", ".join(str(x) for x in xs) + "}"
+
+
+def partition_cases(ctx, ops, cap, tag="part"):
+    """TLC enumerates the decode partition for `ops` (all opcodes in the thorough tier); a seeded start
+    state is attached to each case; at most `cap` cases are kept (seeded sample, every opcode kept)."""
+    consts = {"Tier": '"%s"' % ("thorough" if ops is None else "quick"), "OpsPick": tla_int_set(ops or [])}
+    casep = vf.gen_cases(ctx, "PVM_Gen", consts, timeout=1500, heap="8g", tag=tag)
+    rng = vf.Rng(ctx.seed + 101)
+    raw = [json.loads(l) for l in vf.read_lines(casep)]
+    total = len(raw)
+    if cap and len(raw) > cap:
+        keep = []
+        for r in raw:
+            if rng.n(len(raw)) < cap:
+                keep.append(r)
+        raw = keep
+    cases = []
+    for i, r in enumerate(raw):
+        st = pvmgen.base_state(rng, gas=rng.pick([1, 2, 2, 3]))
+        st.update({"prog": r["prog"], "pc": r["pc"], "id": "p%d" % i,
+                   "tag": "part:%d:%d:%d:%d:%s" % (r["op"], r["b1"], r["b2"], r["l"], r["pos"]), "fx": [pvmgen.le(pvmgen.rand_u64(rng))]})
+        if rng.n(3) == 0:
+            pvmgen.fix_jump_regs(rng, r["prog"], st)
+        cases.append(st)
+    return cases, total
+
+
+def build_cases(ctx, n_part, n_random, mc=True):
+    quick = ctx.quick
+    ops = pick_ops(ctx, 6) if quick else None
+    if mc:
+        invs = ["InvExitKind", "InvGas", "InvInvalidTraps", "InvNoSideEffectOnExit", "InvPanicHaltPc", "InvFaultPc",
+                "InvContTarget", "InvWrites"]
+        vf.mc(ctx, "MC_PVM", vf.cfg_text(constants={"Tier": '"%s"' % ("quick" if quick else "thorough"),
+                                                    "OpsPick": tla_int_set(ops or [])}, invariants=invs),
+              workers=8 if quick else 14, timeout=3000, heap="8g")
+    cases, total = partition_cases(ctx, ops, n_part)
+    ctx.cov["partition_total"] = total
     rng = vf.Rng(ctx.seed)
-    cases = pvmgen.gen_random_cases(rng, n_random)
+    cases += pvmgen.gen_random_cases(rng, n_random)
     return cases
 
 
-def run(ctx, mode="c01"):
+def replay_cases(path):
+    cases = []
+    for ln in vf.read_lines(path):
+        r = json.loads(ln)
+        if "pre" not in r:
+            c = {"prog": r["prog"], "id": r.get("id"), "tag": r.get("tag"), "pc": 0, "gas": 1,
+                 "regs": [[0] * 8] * 13, "acc": [], "data": [], "hp": [0] * 8, "hl": [0] * 8}
+        else:
+            c = dict(r["pre"])
+            c.update({"prog": r["prog"], "id": r.get("id"), "tag": r.get("tag")})
+        cases.append(c)
+    return cases
+
+
+def execute(ctx, cases):
     binp = vf.build_driver(ctx, "pvm", "./PVM", FILES)
     casep = ctx.tmp + "/cases.ndjson"
-    if ctx.replay:
-        lines = vf.read_lines(ctx.replay)
-        cases = []
-        for ln in lines:
-            r = json.loads(ln)
-            c = dict(r["pre"]) if "pre" in r else {}
-            c.update({"prog": r["prog"], "id": r.get("id"), "tag": r.get("tag")})
-            cases.append(c)
-        pvmgen.dump(cases, casep)
-    else:
-        pvmgen.dump(make_cases(ctx, 400 if ctx.quick else 20000), casep)
+    pvmgen.dump(cases, casep)
     tracep = ctx.tmp + "/trace.ndjson"
     vf.run_driver(ctx, binp, "TestRun", env={"VF_CASES": casep, "VF_OUT": tracep})
-    lines = vf.read_lines(tracep)
+    return vf.read_lines(tracep)
+
+
+def nontrivial(lines):
+    """distinct (program, start pc, start gas) among segments that executed at least one instruction"""
+    s = set()
+    for ln in lines:
+        r = json.loads(ln)
+        if r.get("k") != "seg":
+            continue
+        if r["pre"]["gas"] >= 1:
+            s.add(json.dumps([r["prog"]["code"], r["prog"]["mask"], r["pre"]["pc"], r["pre"]["gas"], r["pre"]["regs"]]))
+    return len(s)
+
+
+def run(ctx, mode="c01"):
+    ctx.assumptions += ["Gray Paper 0.7.2 Appendix A as transcribed in spec/pvm/PVM.tla is the oracle (permissive clauses P-sbrk, P-jumpreg, P-fault listed in its header)",
+                        "host environment of the driver: identifiers < 256 leave the machine (scripted effect: omega7, gas-10), others are unknown (WHAT)",
+                        "pages below 2^16 are never mapped by the generators; gas values stay below 2^31 (large limits: C04)"]
+    if ctx.replay:
+        cases = replay_cases(ctx.replay)
+    else:
+        full = os.environ.get("VERIF_FULL") == "1"
+        cases = build_cases(ctx, 1000 if ctx.quick else (0 if full else 25000), 220 if ctx.quick else 3000)
+    lines = execute(ctx, cases)
     ctx.cov["evaluations"] = len(lines)
-    ctx.cov["samples"] = [json.loads(x) for x in lines[:2]]
-    vf.validate_trace(ctx, "PVM_Trace", lines, constants={"Mode": '"%s"' % mode}, shard=150, par=8,
-                      what="PVM deviates from the Gray Paper machine")
+    ctx.cov["distinct_nontrivial"] = nontrivial(lines)
+    ctx.cov["rule"] = ("cases = TLC-enumerated decode partition (opcode x operand-format fields x skip x position; quick: 7 seed-picked "
+                       "opcodes sampled to 1000, thorough: all 151848 sampled to 25000, VERIF_FULL=1: all) with seeded start states + seeded random programs (clean and edgy "
+                       "encodings, up to 6 host-call segments); non-trivial = distinct (program, start pc, gas, registers) segments that execute at least one instruction")
+    ctx.cov["samples"] = [json.loads(x) for x in lines[:1] + lines[-1:]]
+    vf.validate_trace(ctx, "PVM_Trace", lines, constants={"Mode": '"%s"' % mode}, shard=220 if ctx.quick else 900, par=14,
+                      timeout=3000, what="PVM deviates from the Gray Paper machine" if mode == "c01" else "the two PVM engines disagree")
